@@ -676,6 +676,78 @@ def roundtrip(R, ctx):
                  "set_metadata precedes configure, and configure() of %s (with %s) replaces the rule's metadata: the filters read from the configuration are lost" % lost[0]))
 
 
+def serialize_with_helpers(R, ctx, rid="C19.serialize-with"):
+    """Hand-written field serializers of the configuration write every element they are given."""
+    import re
+    from .. import peval
+    from ..peval import Enum, Struct, UNKNOWN, ok, UNIT
+    lib = ctx.lib
+    R.rule(rid, "every function named by a `#[serde(serialize_with = ..)]` attribute of a configuration type, evaluated from its typed tree against "
+                "a recording serializer on lists of 0..4 elements: what reaches the serializer is every element, once, in order (a list of one "
+                "element may be written bare). Fields without the attribute are written by the derive, which writes every element. A dropped "
+                "element makes two configurations serialize alike, so an edit is invisible to the configuration fingerprint")
+    names = set()
+    n_fields = 0
+    for p, ad in lib.adts.items():
+        for v in ad.get("variants", []):
+            for f in v.get("fields", []):
+                n_fields += 1
+                for a in f.get("attrs", []):
+                    names |= set(re.findall(r'(?<![A-Za-z_])serialize_with\s*=\s*"([^"]+)"', a))
+    R.require(rid, "anchor:field-attributes", n_fields >= 200, "", "%d fields inspected, serialize_with helpers named: %s" % (n_fields, sorted(names) or "none"))
+    for name in sorted(names):
+        short = name.split("::")[-1]
+        cands = [f for k, f in lib.fns.items() if (k == name or k.endswith("::" + short)) and thir.body_of(f)]
+        if not R.require(rid, "%s|anchor" % short, len(cands) == 1, "", "%d functions named %s" % (len(cands), short)):
+            continue
+        fn = cands[0]
+        bad = None
+        for k in range(0, 5):
+            items = [Struct("#Elem", {"v": "e%d" % i}) for i in range(k)]
+            log = []
+
+            def hook(pe, path, fname, args, node):
+                a0 = args[0] if args else None
+                if isinstance(a0, Struct) and a0.adt == "#Elem" and fname == "serialize":
+                    log.append(a0.fields["v"])
+                    return ok("#done")
+                if isinstance(a0, Struct) and a0.adt == "#Ser":
+                    if fname == "collect_seq" and len(args) == 2:
+                        it = args[1].rest() if isinstance(args[1], peval.Iter) else args[1]
+                        if isinstance(it, list):
+                            log.extend(x.fields["v"] if isinstance(x, Struct) and x.adt == "#Elem" else "?" for x in it)
+                            return ok("#done")
+                        return UNKNOWN
+                    if fname in ("serialize_seq", "serialize_tuple"):
+                        return ok(Struct("#Seq", {}))
+                    if fname in ("serialize_none", "serialize_unit"):
+                        return ok("#done")
+                    if fname == "serialize_some" and len(args) == 2 and isinstance(args[1], Struct) and args[1].adt == "#Elem":
+                        log.append(args[1].fields["v"])
+                        return ok("#done")
+                    return UNKNOWN
+                if isinstance(a0, Struct) and a0.adt == "#Seq":
+                    if fname == "serialize_element" and len(args) == 2:
+                        x = args[1]
+                        log.append(x.fields["v"] if isinstance(x, Struct) and x.adt == "#Elem" else "?")
+                        return ok(UNIT)
+                    if fname == "end":
+                        return ok("#done")
+                    return UNKNOWN
+                return NotImplemented
+            pe = peval.PEval(lib, ctx.an, hook)
+            try:
+                v = pe.call_fn(fn, [items, Struct("#Ser", {})])
+            except peval.OutOfFuel:
+                v = UNKNOWN
+            want = ["e%d" % i for i in range(k)]
+            if not (isinstance(v, Enum) and v.variant == "Ok") or pe.unknown_reasons:
+                bad = bad or "%d elements: not established %s" % (k, pe.unknown_reasons[:2])
+            elif log != want:
+                bad = bad or "%d elements %s: the serializer receives %s" % (k, want, log)
+        R.ob(rid, "%s|writes-every-element" % short, bad is None, ctx.where(fn), "lists of 0..4 elements are written completely" if bad is None else bad)
+
+
 def run(R, ctx):
     R.explanation = (
         "Reader/writer agreement of the configuration layer decided on typed THIR: strictness of every configure(), serde attributes, "
@@ -690,4 +762,5 @@ def run(R, ctx):
     collide(R, ctx)
     registry(R, ctx)
     skip_default(R, ctx)
+    serialize_with_helpers(R, ctx)
     roundtrip(R, ctx)
